@@ -95,6 +95,8 @@ type tcpPacketConn struct {
 
 	// refs counts outstanding sharedPacketConn wrappers handed out by the mux.
 	refs atomic.Int32
+	// handedOut is set once the mux has handed out a wrapper (guarded by the mux's lock).
+	handedOut bool
 }
 
 type streamingPacket struct {
